@@ -69,7 +69,7 @@ SLICES = {
                     primitive=1),
         # dangling references whose NAME still exists in another stage: the same name in both stages (names are not fixed here);
         # drop stage1.a while stage0.a exists, stage0.a:ref -> stage1.a:ref; judged on the primitive load too
-        "samename": V(names=("a", "c"), fixed=False, reps=("none", "n2"), aggs=(False,), spell=("rel", "abs"), refs=2,
+        "samename": V(names=("a", "c"), fixed=False, reps=("none",), aggs=(False,), spell=("rel", "abs"), refs=2,
                       faults=["none", "drop", "rename", "restage"], package=8, primitive=1),
         # where a variable is defined: `rs` (replica count) and `msg` (arguments) in the global scope and/or in the scope of the
         # own / the OTHER stage; removing the global definition leaves it undefined unless the component's OWN stage defines it.
@@ -87,8 +87,8 @@ SLICES = {
         "options": V(stages=(0,), reps=("none", "vg"), spell=("rel",), refs=1, faults=["key", "type"], package=16),
         "varscope": V(reps=("none", "vs"), aggs=(False,), spell=("abs",), refs=1, faults=["none", "var", "drop"],
                       sv0=(0, 2), sv1=(0, 2), mst=(0, 1, 2), package=8, primitive=2),
-        "samename": V(names=("a", "c"), fixed=False, reps=("none", "n2"), aggs=(True, False), spell=("rel", "abs"), refs=2,
-                      faults=["none", "drop", "rename", "restage", "dup"], package=16, primitive=1),
+        "samename": V(names=("a", "c"), fixed=False, reps=("none", "n2"), aggs=(False,), spell=("rel", "abs"), refs=2,
+                      faults=["none", "drop", "rename", "restage"], package=16, primitive=1),
         "types": V(names=("p", "q"), reps=("none", "n2", "vg"), spell=("rel", "abs"), comps=2, refs=1, faults=["type"],
                    tsites=ALL_TSITES, tclasses=ALL_TCLASSES, package=4),
         "four": V(names=("p", "q", "r", "s"), stages=(0,), reps=("none", "n2"), aggs=(False,), spell=("rel",), comps=4,
